@@ -218,3 +218,19 @@ def with_tc(fn):
     finally:
         for m in saved:
             m.TextContent = real
+
+
+def pick(seq, i):
+    """seq[i] for a symbolic index i, returning the CONCRETE element (forks once per candidate) - needed where the value
+    is handed to compiled code (pydantic-core) that rejects symbolic proxies"""
+    for j in range(len(seq)):
+        if i == j:
+            return seq[j]
+    raise IndexError(i)
+
+
+def concrete_int(n, lo, hi):
+    for c in range(lo, hi + 1):
+        if n == c:
+            return c
+    raise ValueError(n)
